@@ -27,21 +27,23 @@ def micro_cases(ctx):
     N = 6 if ctx.quick() else 10
     for c in 'NCT':
         for n in range(0, N + 1):
-            for k in [-1] + list(range(0, 2 * n + 4)):
+            for k in [-1] + list(range(0, 2 * n + 5)):
                 cases.append('relcreate %s %d %d' % (c, n, k))
                 cases.append('relrange %s %d %d' % (c, n, k))
-                for m in EXTRA_RANGE_MECHS:
-                    cases.append('%s %s %d %d' % (m, c, n, k))
+                cases.append('arrgrow %s %d %d %d' % (c, n, k, n + 1 + (n + k) % 4))
+                cases.append('arraddback %s %d %d' % (c, n, k))
+                if n >= 1:
+                    cases.append('copyctor %s %d %d' % (c, n, k))
+                if n <= 4:
+                    cases.append('intshrink %s %d %d' % (c, n, k))
         for k in range(-1, 5):
             cases.append('copyexec %s 1 %d' % (c, k))
             cases.append('moveexec %s 1 %d' % (c, k))
-            for m in EXTRA_UNIT_MECHS:
-                cases.append('%s %s 1 %d' % (m, c, k))
+            for cv in 'NCT':
+                cases.append('kvreloc %s 1 %d %s' % (c, k, cv))
+            for mv in 'mc':
+                cases.append('kvcreate %s 1 %d %s' % (c, k, mv))
     return cases
-
-
-EXTRA_RANGE_MECHS = []
-EXTRA_UNIT_MECHS = []
 
 
 def oracle_cases(ctx, scale):
@@ -52,7 +54,7 @@ def oracle_cases(ctx, scale):
     per = 5 * scale if ctx.quick() else 24
     for part, cfgs in PARTS.items():
         for cfg in cfgs:
-            cats = 'N' if cfg == 'array_ic4' else 'NCT'
+            cats = 'NCT'
             for c in cats:
                 for i in range(per):
                     nops = NOPS[cfg] if i % 3 else max(6, NOPS[cfg] // 2)
